@@ -378,6 +378,9 @@ Section CorrectM.
   Definition tail_na (p0 : path) (x : path * tree * asg) : asg :=
     map (fun kv : var * (path * tree) => (fst kv, ((p0 ++ fst (fst x)) ++ fst (snd kv), snd (snd kv)))) (snd x).
 
+  Arguments full_na : simpl never.
+  Arguments tail_na : simpl never.
+
   Lemma full_na_eq v p0 x : full_na v p0 x = (v, (p0 ++ fst (fst x), snd (fst x))) :: tail_na p0 x.
   Proof.
     destruct x as [[p s] r]. unfold full_na, tail_na, mk_na. simpl. f_equal.
@@ -467,12 +470,12 @@ Section CorrectM.
                       = map (fun x => full_na v p0 x ++ a) insts).
       { rewrite !map_map. apply map_ext_in. intros x Hx. fold (full_na v p0 x).
         destruct (Hinst x Hx) as (m & P & _ & _ & _ & _ & _ & _ & Hdu). exact Hdu. }
-      unfold asg, path in *. rewrite Hnews.
       assert (Hok : forallb (asg_ok ref) (map (fun x => full_na v p0 x ++ a) insts) = true).
       { apply forallb_forall. intros y Hy. apply in_map_iff in Hy as (x & <- & Hx).
         destruct (Hinst x Hx) as (m & P & _ & _ & _ & _ & _ & Hinv' & _).
         eapply asg_ok_inv; eassumption. }
-      rewrite Hok, (open_leaves_nil ref Hclosed). simpl. rewrite map_map, Hl.
+      pose proof (open_leaves_nil ref Hclosed) as Hopen.
+      unfold asg, path in *. rewrite Hnews, Hok, Hopen. cbn [negb existsb]. rewrite map_map, Hl.
       destruct is_forall; [reflexivity|]. rewrite andb_false_r. reflexivity. }
     (* the specification's quantification = quantification over the instances *)
     assert (HallQ : Forall Pr insts <-> models adenote ref b (FForall v i (Some me) body)).
@@ -505,3 +508,69 @@ Section CorrectM.
     - rewrite <- HallQ. destruct Hall as [[-> H]|[-> H]]; [left | right]; auto.
     - rewrite <- HanyQ. destruct Hany as [[-> H]|[-> H]]; [left | right]; auto.
   Qed.
+
+  (* ---- the main theorem, match expressions included ---- *)
+  Theorem eval_correct_mexpr f : forall a b, inv ref a b -> wfm (keys a) f ->
+    (ev f a = Ok TT /\ models adenote ref b f) \/ (ev f a = Ok FF /\ ~ models adenote ref b f).
+  Proof.
+    induction f as [x|n args|n args|g IH|fs IH|fs IH|v i m body IH|v i m body IH|v body IH|v body IH]
+      using formula_ind'; intros a b Hinv Hwf; simpl in Hwf; try contradiction.
+    - destruct Hwf as [Hfv Hop]. simpl. rewrite (afree_assigned A afree a x Hfv), Hop. simpl.
+      apply Hatom; assumption.
+    - simpl. eapply spred_correct; eassumption.
+    - simpl. eapply sempred_correct; eassumption.
+    - simpl. destruct (IH a b Hinv Hwf) as [[-> H]|[-> H]]; simpl; [right | left]; auto.
+    - simpl.
+      destruct (collect_decided (fun g => ev g a) (fun g => models adenote ref b g) fs) as (l & Hl & Hall & _).
+      { intros g Hin. rewrite Forall_forall in IH. apply IH; [assumption | assumption|].
+        clear - Hwf Hin. induction fs as [|x fs IHfs]; [contradiction|]. destruct Hwf as [Hx Hr].
+        destruct Hin as [->|Hin]; auto. }
+      rewrite Hl.
+      assert (E : (fix all (l0 : list (formula A)) : Prop :=
+                     match l0 with [] => True | x :: l' => models adenote ref b x /\ all l' end) fs
+                  <-> Forall (fun g => models adenote ref b g) fs).
+      { clear. induction fs as [|x fs IHfs]; [split; constructor|]. rewrite IHfs. split.
+        - intros [H1 H2]. constructor; assumption.
+        - intro H. inversion H. auto. }
+      rewrite E. destruct Hall as [[-> H]|[-> H]]; [left | right]; auto.
+    - simpl.
+      destruct (collect_decided (fun g => ev g a) (fun g => models adenote ref b g) fs) as (l & Hl & _ & Hany).
+      { intros g Hin. rewrite Forall_forall in IH. apply IH; [assumption | assumption|].
+        clear - Hwf Hin. induction fs as [|x fs IHfs]; [contradiction|]. destruct Hwf as [Hx Hr].
+        destruct Hin as [->|Hin]; auto. }
+      rewrite Hl.
+      assert (E : (fix any (l0 : list (formula A)) : Prop :=
+                     match l0 with [] => False | x :: l' => models adenote ref b x \/ any l' end) fs
+                  <-> Exists (fun g => models adenote ref b g) fs).
+      { clear. induction fs as [|x fs IHfs]; [split; [contradiction | intro H; inversion H]|]. rewrite IHfs. split.
+        - intros [H|H]; [apply Exists_cons_hd | apply Exists_cons_tl]; assumption.
+        - intro H. inversion H; auto. }
+      rewrite E. destruct Hany as [[-> H]|[-> H]]; [left | right]; auto.
+    - destruct Hwf as (Hi & Hfr & Hm). destruct m as [me|].
+      + destruct Hm as [Hun Htp].
+        apply (quant_correct_mexpr true v i me body a b Hinv Hi Hfr Hun (fun tp Hin => proj1 (Htp tp Hin))).
+        intros tp a' b' Hin Hinv' Hk. apply IH; [assumption|].
+        eapply wfm_ext; [|exact (proj2 (Htp tp Hin))]. intro w. symmetry. apply Hk.
+      + simpl.
+        eapply (quant_correct A afree aopen aeval qmm reach count_open adenote ref) with (is_forall := true); try eassumption.
+        intros a' b' Hinv' Hk. apply IH; [assumption|]. rewrite Hk. assumption.
+    - destruct Hwf as (Hi & Hfr & Hm). destruct m as [me|].
+      + destruct Hm as [Hun Htp].
+        apply (quant_correct_mexpr false v i me body a b Hinv Hi Hfr Hun (fun tp Hin => proj1 (Htp tp Hin))).
+        intros tp a' b' Hin Hinv' Hk. apply IH; [assumption|].
+        eapply wfm_ext; [|exact (proj2 (Htp tp Hin))]. intro w. symmetry. apply Hk.
+      + simpl.
+        eapply (quant_correct A afree aopen aeval qmm reach count_open adenote ref) with (is_forall := false); try eassumption.
+        intros a' b' Hinv' Hk. apply IH; [assumption|]. rewrite Hk. assumption.
+  Qed.
+
+  Corollary eval_correct_mexpr_top f : wfm [] f ->
+    (ev f [] = Ok TT <-> models adenote ref env_empty f) /\
+    (ev f [] = Ok FF <-> ~ models adenote ref env_empty f) /\
+    ev f [] <> Ok UU /\ (forall e, ev f [] <> Raise e).
+  Proof.
+    intro Hwf. destruct (eval_correct_mexpr f [] env_empty (inv_empty ref) Hwf) as [[E H]|[E H]]; rewrite E.
+    - repeat split; try tauto; try discriminate; try (intros; discriminate).
+    - repeat split; try tauto; try discriminate; try (intros; discriminate).
+  Qed.
+End CorrectM.
